@@ -1,17 +1,30 @@
 (* C08, fatal half.  [scrub] removes every fault that cannot be retried from a state: scripts are
-   cut at their first fatal error and callbacks never fail.  Every call on a state either behaves
+   cut at their first fatal error and callbacks never return an error (a callback that panics
+   keeps its record: [scrub_fl]; a panic is the same panic on both sides).  Every call on a state either behaves
    exactly like the same call on the scrubbed state (same result, same events, scrubbed successor)
    or it returns Err e for one of the fault codes e of the state - immediately and unchanged.
    Generic lemmas, one per transcription. *)
 From Juniper Require Import Common.Base Iter.Syntax Iter.ModelBase Iter.IterModel
   Iter.StreamModel Iter.Spec Iter.Contract.
 
-Lemma fails_now_code fl calls : fails_now fl calls = true -> In (fail_err fl) (cb_codes fl).
+Lemma fails_now_code fl calls :
+  fail_panic fl = false -> fails_now fl calls = true -> In (fail_err fl) (cb_codes fl).
 Proof.
-  unfold fails_now, cb_codes. destruct (fail_at fl); [simpl; auto|discriminate].
+  unfold fails_now, cb_codes. intros Hp. rewrite Hp.
+  destruct (fail_at fl); [simpl; auto|discriminate].
 Qed.
 Lemma never_fails_now calls : fails_now never_fails calls = false.
 Proof. reflexivity. Qed.
+Lemma scrub_fl_panic fl : fail_panic fl = true -> scrub_fl fl = fl.
+Proof. unfold scrub_fl. intros H; rewrite H. reflexivity. Qed.
+Lemma scrub_fl_err fl : fail_panic fl = false -> scrub_fl fl = never_fails.
+Proof. unfold scrub_fl. intros H; rewrite H. reflexivity. Qed.
+Lemma scrub_fl_quiet fl calls : fails_now fl calls = false -> fails_now (scrub_fl fl) calls = false.
+Proof. unfold scrub_fl. destruct (fail_panic fl); auto. Qed.
+Lemma fail_res_panic {A} fl : fail_panic fl = true -> @fail_res A fl = Pan.
+Proof. unfold fail_res. intros H; rewrite H. reflexivity. Qed.
+Lemma fail_res_err {A} fl : fail_panic fl = false -> @fail_res A fl = Err (fail_err fl).
+Proof. unfold fail_res. intros H; rewrite H. reflexivity. Qed.
 
 Ltac incl_tac :=
   let x := fresh "x" in let Hx := fresh "Hx" in
@@ -32,6 +45,15 @@ End SimDef.
 Ltac in_tac := simpl in *; repeat rewrite in_app_iff in *; intuition auto.
 Ltac agree_leaf Hc := inv_ret Hc; simpl; split; [incl_tac|left; reflexivity].
 Ltac hit_leaf Hc e := inv_ret Hc; simpl; split; [incl_tac|right; exists e; split; [reflexivity|in_tac]].
+(* the callback fails now (Ef): a panic is the same panic on the scrubbed side, an error is one
+   of the codes *)
+Ltac cb_fails fl Ef Hc :=
+  let Epn := fresh "Epn" in
+  destruct (fail_panic fl) eqn:Epn;
+  [rewrite (fail_res_panic fl Epn) in Hc; rewrite (scrub_fl_panic fl Epn);
+   try rewrite Ef; try rewrite (fail_res_panic fl Epn); agree_leaf Hc
+  |rewrite (fail_res_err fl Epn) in Hc; pose proof (fails_now_code _ _ Epn Ef);
+   hit_leaf Hc (fail_err fl)].
 
 Section GenericSim.
   Context {St : Type} (nx : St -> ret Z St) (codes : St -> list Z) (scrub : St -> St).
@@ -84,7 +106,7 @@ Section GenericSim.
     sim2 (fun w : nat * St => cb_codes fl ++ codes (snd w))
          (fun w => (fst w, scrub (snd w)))
          (fun w => sfilter nx n keep fl (fst w) (snd w))
-         (fun w => sfilter nx n keep never_fails (fst w) (snd w)).
+         (fun w => sfilter nx n keep (scrub_fl fl) (fst w) (snd w)).
   Proof.
     induction n as [|n IH]; intros [calls s] o w' ev Hc; simpl in *.
     - agree_leaf Hc.
@@ -92,8 +114,8 @@ Section GenericSim.
       destruct (Hsim _ _ _ _ E) as [Hi [Ha|(e & He & Hin)]].
       + rewrite Ha. destruct o1 as [x| | | |]; try (agree_leaf Hc).
         destruct (fails_now fl calls) eqn:Ef.
-        * pose proof (fails_now_code _ _ Ef). hit_leaf Hc (fail_err fl).
-        * try rewrite never_fails_now.
+        * cb_fails fl Ef Hc.
+        * rewrite ?(scrub_fl_quiet _ _ Ef).
           destruct (pred_eval keep x); [agree_leaf Hc|].
           destruct (sfilter nx n keep fl (S calls) s1) as [[o2 w2] ev2] eqn:E2.
           simpl in Hc. inv_ret Hc.
@@ -119,15 +141,15 @@ Section GenericSim.
     sim2 (fun w : nat * St => cb_codes fl ++ codes (snd w))
          (fun w => (fst w, scrub (snd w)))
          (fun w => smap nx f fl (fst w) (snd w))
-         (fun w => smap nx f never_fails (fst w) (snd w)).
+         (fun w => smap nx f (scrub_fl fl) (fst w) (snd w)).
   Proof.
     intros [calls s] o w' ev. unfold smap. simpl.
     destruct (nx s) as [[o1 s1] ev1] eqn:E. intros Hc.
     destruct (Hsim _ _ _ _ E) as [Hi [Ha|(e & He & Hin)]].
     - rewrite Ha. destruct o1 as [x| | | |]; try (agree_leaf Hc).
       destruct (fails_now fl calls) eqn:Ef.
-      + pose proof (fails_now_code _ _ Ef). hit_leaf Hc (fail_err fl).
-      + try rewrite never_fails_now. agree_leaf Hc.
+      + cb_fails fl Ef Hc.
+      + rewrite ?(scrub_fl_quiet _ _ Ef). agree_leaf Hc.
     - subst o1. hit_leaf Hc e.
   Qed.
 
@@ -137,20 +159,20 @@ Section GenericSim.
          (fun w => let '(calls, item, has, done, s) := w in
                    swhile nx f fl calls item has done s)
          (fun w => let '(calls, item, has, done, s) := w in
-                   swhile nx f never_fails calls item has done s).
+                   swhile nx f (scrub_fl fl) calls item has done s).
   Proof.
     intros [[[[calls item] has] done] s] o w' ev. unfold swhile. simpl. destruct done.
     - intros Hc. agree_leaf Hc.
     - destruct has.
       + destruct (fails_now fl calls) eqn:Ef.
-        * pose proof (fails_now_code _ _ Ef). intros Hc. hit_leaf Hc (fail_err fl).
-        * try rewrite never_fails_now. destruct (pred_eval f item); intros Hc; agree_leaf Hc.
+        * intros Hc. cb_fails fl Ef Hc.
+        * rewrite ?(scrub_fl_quiet _ _ Ef). destruct (pred_eval f item); intros Hc; agree_leaf Hc.
       + destruct (nx s) as [[o1 s1] ev1] eqn:E. intros Hc.
         destruct (Hsim _ _ _ _ E) as [Hi [Ha|(e & He & Hin)]].
         * rewrite Ha. destruct o1 as [x| | | |]; try (agree_leaf Hc).
           destruct (fails_now fl calls) eqn:Ef.
-          -- pose proof (fails_now_code _ _ Ef). hit_leaf Hc (fail_err fl).
-          -- try rewrite never_fails_now. destruct (pred_eval f x); agree_leaf Hc.
+          -- cb_fails fl Ef Hc.
+          -- rewrite ?(scrub_fl_quiet _ _ Ef). destruct (pred_eval f x); agree_leaf Hc.
         * subst o1. hit_leaf Hc e.
   Qed.
 
